@@ -308,6 +308,29 @@ example : ∃ s, Mux.Reachable 1 s ∧ s.mdone = true ∧ Mux.Quiescent 1 s ∧ 
 
 end Examples
 
+open Mux Examples in
+set_option linter.unusedSimpArgs false in
+/-- What the model does not promise, because the code does not do it: a client that sends fewer than
+    `prefixLen` bytes and neither continues nor closes keeps its connection open inside routeConn's
+    ReadFull even after the multiplexer has stopped and Run has returned — the connection is neither
+    delivered nor closed.  (Here: prefixLen 4, one connection with 2 bytes, context cancelled, run to
+    quiescence.)  Replayed on the implementation by the migrate suite; listed in known_findings.json
+    (C16-stalled-prefix). -/
+theorem stalled_connection_counterexample :
+    ∃ s, Mux.Reachable 4 s ∧ s.mdone = true ∧ Mux.Quiescent 4 s ∧ s.run = .returned none ∧
+      s.conn 0 = .reading ∧ deliveries s 0 + closes s 0 = 0 := by
+  cases h : mrun 4 [.baseConn 0, .clientData 0 [0x44#8, 0x52#8], .cancel, .runStep, .runStep, .runStep, .runStep, .runStep] Mux.init with
+  | none => simp [mrun, Mux.step, Mux.init, State.setConn, State.closeLis, State.muHeld] at h
+  | some s =>
+    refine ⟨s, mrun_reachable _ _ _ _ Mux.Reachable.init h, ?_⟩
+    simp [mrun, Mux.step, Mux.init, State.setConn, State.closeLis, State.muHeld] at h
+    subst h
+    refine ⟨rfl, ?_, rfl, by simp, by simp [deliveries, closes]⟩
+    intro l hl
+    cases l <;> simp [Label.internal] at hl <;> simp [Mux.step, State.muHeld]
+    all_goals (rename_i x; by_cases h0 : x = 0 <;> simp [h0])
+
+
 #print axioms prefix_transparent
 #print axioms prefix_reads_never_span
 #print axioms read_full_chunk_independent
@@ -325,5 +348,6 @@ end Examples
 #print axioms route_lookup_exact
 #print axioms registered_keys_have_prefix_len
 #print axioms only_route_panics
+#print axioms stalled_connection_counterexample
 
 end Drpc.Props.C16
